@@ -5,6 +5,7 @@ package verifharness
 import (
 	"fmt"
 	"math/rand/v2"
+	"os"
 	"sort"
 	"strings"
 	"testing"
@@ -181,6 +182,16 @@ func c11Run(t *testing.T, run *Run, sc c11Scenario) {
 		wb := NewWorld(t, WorldOpt{TLSListener: true, StateDir: stages[k].state})
 		fail := func(sig, format string, a ...any) {
 			run.Violate(sig, fmt.Sprintf(format, a...), map[string]any{"scenario": sc, "restart_after": k}, func() []string { return wb.Trace(150) })
+		}
+		// every other restart finds what a kill during a later snapshot write leaves next to the
+		// state file: the temporary file of that write, empty or cut short. The state file itself is
+		// the complete snapshot of the last command that returned - that is what is restored.
+		if (sc.Idx+k)%2 == 1 {
+			if b, err := os.ReadFile(wb.StatePath); err == nil {
+				cut := [][]byte{{}, b[:len(b)/2], b[:len(b)-1]}[(sc.Idx/2+k)%3]
+				os.WriteFile(wb.StatePath+".tmp", cut, 0o644)
+				run.Count("restarts_with_a_leftover_temporary_snapshot", 1)
+			}
 		}
 		// the fake network must know every target named so far
 		for _, c := range sc.History {
